@@ -30,7 +30,7 @@ package searcher
 //@   ensures implies(result1 == nil && result0 == nil, f.done)
 //@   loop 0: invariant f.child == old(f.child) && f.accept == old(f.accept) && ctx.DocumentMatchPool != nil && f.started == old(f.started) && f.last == old(f.last) && f.done == old(f.done)
 //@   loop 0: invariant implies(err == nil && next != nil, f.child.started && f.child.last == idKey(next.IndexInternalID) && unconsumed(old(f.child.started), old(f.child.last), f.child.last) && !f.child.done)
-//@   loop 0: invariant implies(err == nil && next == nil, f.child.done)
+//@   loop 0: invariant implies(err == nil && next == nil, f.child.done) && implies(err == nil && old(f.child.done), next == nil)
 //@   loop 0: invariant implies(err == nil && old(f.child.started), f.child.started && f.child.last >= old(f.child.last))
 
 // Advance: the child lands at or after the target; a rejected match is followed by Next.
